@@ -27,30 +27,30 @@ type TxMsg = proto::txsubmission::Message<proto::txsubmission::EraTxId, proto::t
 
 // bound: arbitrary buffer of symbolic length 0..=3; Kani's panic / bounds / overflow checks; unwind 8
 total!(c09_q_n1_keepalive, proto::keepalive::Message, 3, 8);
-total!(c09_q_n1_blockfetch, proto::blockfetch::Message, 3, 8);
-total!(c09_q_n1_chainsync_header, CsHdr, 3, 8);
-total!(c09_q_n1_chainsync_block, CsBlk, 3, 8);
-total!(c09_q_n1_txsubmission, TxMsg, 3, 8);
-total!(c09_q_n1_peersharing, proto::peersharing::Message, 3, 8);
-total!(c09_q_n1_localstate, proto::localstate::Message, 3, 8);
-total!(c09_q_n1_txmonitor, proto::txmonitor::Message, 3, 8);
-total!(c09_q_n1_localmsgnotification, proto::localmsgnotification::Message, 3, 8);
+total!(c09_x_n1_blockfetch_b3, proto::blockfetch::Message, 3, 8);
+total!(c09_x_n1_chainsync_header_b3, CsHdr, 3, 8);
+total!(c09_x_n1_chainsync_block_b3, CsBlk, 3, 8);
+total!(c09_x_n1_txsubmission_b3, TxMsg, 3, 8);
+total!(c09_x_n1_peersharing_b3, proto::peersharing::Message, 3, 8);
+total!(c09_x_n1_localstate_b3, proto::localstate::Message, 3, 8);
+total!(c09_x_n1_txmonitor_b3, proto::txmonitor::Message, 3, 8);
+total!(c09_x_n1_localmsgnotification_b3, proto::localmsgnotification::Message, 3, 8);
 total!(c09_q_n1_point, proto::Point, 3, 8);
 total!(c09_q_n1_tip, proto::chainsync::Tip, 3, 8);
-total!(c09_q_n1_peeraddress, proto::peersharing::PeerAddress, 3, 8);
+total!(c09_x_n1_peeraddress_b3, proto::peersharing::PeerAddress, 3, 8);
 // bound: arbitrary buffer of symbolic length 0..=5; unwind 10
 total!(c09_t_n1_keepalive, proto::keepalive::Message, 5, 10);
-total!(c09_t_n1_blockfetch, proto::blockfetch::Message, 5, 10);
-total!(c09_t_n1_chainsync_header, CsHdr, 5, 10);
-total!(c09_t_n1_chainsync_block, CsBlk, 5, 10);
-total!(c09_t_n1_txsubmission, TxMsg, 5, 10);
-total!(c09_t_n1_peersharing, proto::peersharing::Message, 5, 10);
-total!(c09_t_n1_localstate, proto::localstate::Message, 5, 10);
-total!(c09_t_n1_txmonitor, proto::txmonitor::Message, 5, 10);
-total!(c09_t_n1_localmsgnotification, proto::localmsgnotification::Message, 5, 10);
+total!(c09_x_n1_blockfetch_b5, proto::blockfetch::Message, 5, 10);
+total!(c09_x_n1_chainsync_header_b5, CsHdr, 5, 10);
+total!(c09_x_n1_chainsync_block_b5, CsBlk, 5, 10);
+total!(c09_x_n1_txsubmission_b5, TxMsg, 5, 10);
+total!(c09_x_n1_peersharing_b5, proto::peersharing::Message, 5, 10);
+total!(c09_x_n1_localstate_b5, proto::localstate::Message, 5, 10);
+total!(c09_x_n1_txmonitor_b5, proto::txmonitor::Message, 5, 10);
+total!(c09_x_n1_localmsgnotification_b5, proto::localmsgnotification::Message, 5, 10);
 total!(c09_t_n1_point, proto::Point, 5, 10);
 total!(c09_t_n1_tip, proto::chainsync::Tip, 5, 10);
-total!(c09_t_n1_peeraddress, proto::peersharing::PeerAddress, 5, 10);
+total!(c09_x_n1_peeraddress_b5, proto::peersharing::PeerAddress, 5, 10);
 
 /// vacuity twin: must come back FAILED
 #[kani::proof]
